@@ -57,6 +57,11 @@ BEAST_ALPHA = {
     "Xl": B.beast_frame(0x32, TS, 0x40, LONG[:7]),      # short frame carrying a long-only DF: not admitted
     "Lsig0": B.beast_frame(0x33, TS, 0x00, LONG2),
 }
+for _df in range(32):
+    # one long ('3') and one short ('2') Beast frame per downlink format (admission depends on DF vs length)
+    BEAST_ALPHA["L%02d" % _df] = B.beast_frame(0x33, TS, 0x55, bytes([(_df << 3) | 5]) + LONG[1:])
+    BEAST_ALPHA["S%02d" % _df] = B.beast_frame(0x32, TS, 0x55, bytes([(_df << 3) | 5]) + SHORT[1:])
+BEAST_CORE = ["L", "Lts0", "Lts5", "Lsig", "Lm0", "Lm13", "Lmm", "S", "Sm6", "AC", "ST", "ACe0", "ACe1", "STe", "Xl", "Lsig0"]
 BEAST_TERM = [0x1A, 0x33]
 
 RAW_ALPHA = {
@@ -73,6 +78,10 @@ SKY_ALPHA = {
     "Lq": B.skysense_frame(_with(LONG2, 5, 0x24), [0xFF, 0xFF, 0xFF, 0xFF, 0xFF, 0xFF], [9, 0x24, 9]),
     "S0": B.skysense_frame(_with(SHORT, 0, 0x24) + bytes(7), [0, 0, 0, 0, 0, 0], [0x24, 0x24, 0x24]),
 }
+for _df in range(32):
+    # Skysense carries 14 payload bytes; formats 16-31 (first bit set) are long, 0-15 short
+    SKY_ALPHA["F%02d" % _df] = B.skysense_frame(bytes([(_df << 3) | 3]) + LONG2[1:], [0x80, 1, 2, 3, 4, _df], [1, 2, _df])
+SKY_CORE = ["L", "S", "Lp", "Lq", "S0"]
 SKY_TERM = [0x24]
 
 FRAMERS = {
@@ -378,17 +387,23 @@ def run(ctx):
     tasks = []
     for framer, (alpha, term, _, _) in FRAMERS.items():
         seqs = []
+        core = BEAST_CORE if framer.startswith("beast") else SKY_CORE if framer == "skysense" else sorted(alpha)
         for n in range(1, depth + 1):
-            if n == 3 and framer.startswith("beast"):
+            if n == 1:
+                seqs += [(a,) for a in sorted(alpha)]           # every frame of the alphabet incl. one per DF
+            elif n == 3 and framer.startswith("beast"):
                 sub = ["L", "Lts5", "Lsig", "Lm13", "Lmm", "S", "Sm6", "AC", "ACe1", "STe"]
                 seqs += list(itertools.product(sub, repeat=3))
             else:
-                seqs += list(itertools.product(sorted(alpha), repeat=n))
+                seqs += list(itertools.product(core, repeat=n))
+        if framer == "skysense":
+            seqs += [("F22", "F04"), ("F04", "F23"), ("F31", "F16")]
         tasks += [("s", (framer, c)) for c in chunks(seqs, 4)]
     tasks += [("n", (first, 6 if ctx.thorough else 5)) for first in sorted(NS_ALPHA)]
     for framer in ("beast", "raw", "skysense"):
         alpha = FRAMERS[framer][0]
-        seqs = [(a,) for a in sorted(alpha)] + [(a, b) for a in sorted(alpha) for b in sorted(alpha)][:: (1 if ctx.thorough else 3)]
+        core = BEAST_CORE if framer == "beast" else SKY_CORE if framer == "skysense" else sorted(alpha)
+        seqs = [(a,) for a in sorted(alpha)] + [(a, b) for a in core for b in core][:: (1 if ctx.thorough else 3)]
         tasks += [("r", (framer, c)) for c in chunks(seqs, 6)]
     ctx.cov["states"] = 0
     ctx.cov["transitions"] = 0
